@@ -293,6 +293,22 @@ public:
         strides[i-1] = arraysize;
     }
 
+    //set extents: those of the inputs, and the fully supported range of the
+    //stacking dimension (as fit() does). Without them convolve(),
+    //permuteDimensions() and lower_extent()/upper_extent() would read through
+    //a null pointer.
+    extents = allocate<double_ptr>(ndim);
+    extents[0] = nullptr;
+    extents[0] = allocate<double>(2*ndim);
+    for(unsigned int i=0; i<ndim; i++)
+      extents[i] = &extents[0][2*i];
+    for(unsigned int i=0; i<inputDim; i++){
+      extents[i][0] = tables.front()->lower_extent(i);
+      extents[i][1] = tables.front()->upper_extent(i);
+    }
+    extents[inputDim][0] = knots[inputDim][order[inputDim]];
+    extents[inputDim][1] = knots[inputDim][nknots[inputDim]-order[inputDim]-1];
+
     //the two padding tables were created above (extrapolateSpline) and are
     //owned by this function; their coefficients have been copied
     delete tables.front();
